@@ -189,6 +189,18 @@ def execute(case, trace=False):
             bad = check_outcome(e, cands, want)
             if bad:
                 viol(bad[0], bad[1], pol)
+            else:
+                # the *final result* must survive being looked at: a profile query may not add winners or rounds
+                n_states = len(e.election_states)
+                with seams.quiet():
+                    try:
+                        e.get_profile()
+                        e.get_step()
+                    except Exception:
+                        pass  # replaying a random path may legitimately fail (C09's scope); only the recorded result matters here
+                bad2 = check_outcome(e, cands, want)
+                if bad2 or len(e.election_states) != n_states:
+                    viol("result-changed-by-query", f"after get_profile()/get_step() the election has {len(e.election_states) - 1} recorded rounds (was {n_states - 1}) and {bad2[1] if bad2 else 'a consistent outcome'}", pol)
             if smith is not None:
                 got = sorted(c for s in e.get_elected() for c in s)
                 if got != smith:
